@@ -269,6 +269,14 @@ def write_driver_all():
     if os.path.exists(os.path.join(LEAN, "OQ", "Generated", "TranslatedDriver.lean")):
         text = text.replace("open Lean\n", "import OQ.Generated.TranslatedDriver\nopen Lean\n", 1)
         text += '  | "TR" => OQ.TR.Driver.handle op j\n'
+    # --- T3: further generated glue files OQ/Generated/TranslatedDriver<TAG>.lean (namespace OQ.TR<TAG>.Driver) are
+    # dispatched under the property tag "TR<TAG>"
+    for fn in sorted(os.listdir(os.path.join(LEAN, "OQ", "Generated"))):
+        m = re.fullmatch(r"TranslatedDriver(\w+)\.lean", fn)
+        if m:
+            text = text.replace("open Lean\n", f"import OQ.Generated.TranslatedDriver{m.group(1)}\nopen Lean\n", 1)
+            text += f'  | "TR{m.group(1)}" => OQ.TR{m.group(1)}.Driver.handle op j\n'
+    # --- T3 end
     text += '  | _ => .error s!"unknown property {prop}"\n\nend OQ.Driver\n'
     path = os.path.join(d, "All.lean")
     if not os.path.exists(path) or open(path).read() != text:
